@@ -150,8 +150,9 @@ def strip_parity(key):
 class FelicaLiteCard:
     MC_BLANK = bytes([255, 255, 255, 1, 7, 0, 0, 0, 0, 0, 0, 0, 0, 0, 0, 0])
 
-    def __init__(self, lites=False, idm=bytes(range(1, 9)), init=None):
+    def __init__(self, lites=False, idm=bytes(range(1, 9)), init=None, ndef=False):
         self.lites = lites
+        self.ndef = ndef          # answers the NFC Forum system code poll (12FCh)
         self.idm = bytes(idm)
         self.mem = {}
         for b in list(range(0, 15)) + list(range(0x80, 0x89)) + ([0x90, 0x91, 0x92] if lites else []):
@@ -238,6 +239,8 @@ class FelicaLiteCard:
         code, rest = cmd[1], cmd[2:]
         if code == 0x00:
             if len(rest) == 4 and rest[0] in (0x88, 0xFF) and rest[1] in (0xB4, 0xFF):
+                return bytes([18, 1]) + self.idm + bytes([0, 0xF1 if self.lites else 0xF0]) + b'\xff' * 6
+            if self.ndef and len(rest) == 4 and rest[0:2] == b'\x12\xfc':
                 return bytes([18, 1]) + self.idm + bytes([0, 0xF1 if self.lites else 0xF0]) + b'\xff' * 6
             return None
         if rest[:8] != self.idm:
@@ -368,7 +371,8 @@ class Ntag21xCard:
 # ------------------------------------------------------------------ fake frontend
 class FakeClf(nfc.ContactlessFrontend):
     """exchange() hands the command to the simulated card; response number `mutate[0]` (counted
-    over the responses that exist) is passed through `mutate[1]` (bytes -> bytes) on its way back.
+    over the responses that exist) is passed through `mutate[1]` (bytes -> bytes) on its way back;
+    `tamper`, when set, sees every command/response pair (an adversary that keeps modifying).
     The transcript records what the reader saw."""
 
     def __init__(self, card):
@@ -380,6 +384,7 @@ class FakeClf(nfc.ContactlessFrontend):
         self.nrsp = 0
         self.sense_target = None
         self.recording = True
+        self.tamper = None            # persistent adversary: (command, response) -> response, applied to every response
         self.events = []              # what the card saw: ('x', command, response) | ('s',)
 
     def exchange(self, send_data, timeout):
@@ -390,6 +395,8 @@ class FakeClf(nfc.ContactlessFrontend):
             if self.nrsp in self.mutations:
                 seen = bytes(self.mutations[self.nrsp](rsp))
             self.nrsp += 1
+            if self.tamper is not None:
+                seen = bytes(self.tamper(cmd, seen))
         if self.recording:
             self.transcript.append((cmd, seen))
             self.true_rsp.append(rsp)
@@ -404,3 +411,35 @@ class FakeClf(nfc.ContactlessFrontend):
             if self.recording:
                 self.events.append(('s',))
         return self.sense_target
+
+
+def felica_block_tamper(masks, once=False):
+    """adversary for FakeClf.tamper: whenever a Read Without Encryption response carries block n with n in
+    `masks` (block number -> 16-byte xor mask; 81h is the MAC block) the mask is applied to that block's data.
+    once=True: only the first response that carries such a block is modified."""
+    state = {'done': False}
+
+    def tamper(cmd, rsp):
+        if once and state['done']:
+            return rsp
+        if len(cmd) < 14 or cmd[1] != 0x06 or len(rsp) < 13 or rsp[1] != 0x07 or rsp[10] != 0:
+            return rsp
+        n = cmd[13]
+        blocks, pos = [], 14
+        for _ in range(n):
+            if pos < len(cmd) and cmd[pos] == 0x80:
+                blocks.append(cmd[pos + 1])
+                pos += 2
+            else:
+                return rsp
+        out = bytearray(rsp)
+        hit = False
+        for i, b in enumerate(blocks):
+            if b in masks and 13 + 16 * (i + 1) <= len(out):
+                for k in range(16):
+                    out[13 + 16 * i + k] ^= masks[b][k]
+                hit = True
+        if hit:
+            state['done'] = True
+        return bytes(out)
+    return tamper
